@@ -51,12 +51,12 @@ ASSUMPTIONS = [
     "repeated pairs; an empty list is excluded by construction (see shard_edges: shape (0,) / ValueError) - the statement is vacuous for zero ages.",
     "LME reference data are the table values rounded like the reader (ages to 6 digits) and cast to float32 then float64; ages_mean / ages_std are the "
     "population mean / std-dev (numpy default, ddof=0) of the retained ages, compared with rtol 2e-5.",
-    "LME vs statsmodels: judged only when the harness refit raises no convergence/boundary/singularity/runtime warning and its unscaled random-effects "
-    "covariance has condition number <= 1e4 (counted otherwise: 5-10 % of the cohorts). "
+    "LME vs statsmodels: judged only when the harness refit raises no convergence/boundary/singularity/runtime warning and both unscaled random-effects "
+    "covariances (the refit's and the model's own) have condition number <= 1e4 (counted otherwise: 5-10 % of the cohorts). "
     "(a) the model's fe_params and cov_re/noise_std^2 must reach the refit's restricted log-likelihood (evaluated by statsmodels on the reference data) "
     "within 5e-4 + 1e-6*|llf|, and cov_re must be diagonal under force_independent_random_effects; (b) the personalised random effects must equal "
     "`fitted.random_effects` within 2e-6 + 1e-5 * max|random effect in the cohort|. When the random effects disagree because the two fitted parameter sets "
-    "differ, or (a) fails: then a second-opinion refit on the float32 pipeline of the Dataset (float32 normalisation, float32 arrays, Dataset order) decides - "
+    "differ, or (a) fails: then a second-opinion refit on the float32 pipeline of the Dataset (float32 normalisation, float32 arrays, individuals in Dataset order = first appearance among the ingested rows, which under drop_full_nan=False includes visits without value) decides - "
     "parameters reproduced to 1e-8 relative and random effects equal to that refit's = optimiser end point on a flat likelihood (counted as 'flat-likelihood', "
     "seen ~1 in 1000 cohorts), anything else is reported. Same fit options as the defaults of lme_fit (method list, REML, free parameters under forced independence).",
     "LME closed form uses the model's own fitted cov_re and noise_std (not the stored inverse) in the inverse-free form Psi Z'(Z Psi Z' + I)^-1 r; "
@@ -568,7 +568,7 @@ def _lme_reference_data(rows):
             for k, v in per.items()}
 
 
-def _refit(per, slope, indep, float32_pipeline=False):
+def _refit(per, slope, indep, float32_pipeline=False, order=None):
     """statsmodels refit on the reference data (own float64 normalisation, same options).
     Returns dict(re, fe, psi, llf, loglike, msgs) - `re` is None when the reference is not available.
 
@@ -579,6 +579,8 @@ def _refit(per, slope, indep, float32_pipeline=False):
     import numpy as np
     from statsmodels.regression.mixed_linear_model import MixedLM, MixedLMParams
 
+    if order is not None:  # individuals in the order the Dataset holds them (matters for float32 sums, hence for the end point)
+        per = {k: per[k] for k in order}
     T = np.concatenate([v[0] for v in per.values()])
     Y = np.concatenate([v[1] for v in per.values()])
     G = np.concatenate([[k] * len(v[0]) for k, v in per.items()])
@@ -772,7 +774,18 @@ def body_lme(col: Collector, case):
     psi = cov_re / noise_std**2
 
     # ---- (1) statsmodels refit -----------------------------------------------------------------------
-    R = _refit(per, slope, indep)
+    # order of the individuals in the Dataset = first appearance among the ingested rows (with drop_full_nan=False a visit
+    # without value counts, so this is not the order of first observed value)
+    ds_order = []
+    for r in (train_rows if keep_nan else [r for r in train_rows if r[2] is not None]):
+        if str(r[0]) in per and str(r[0]) not in ds_order:
+            ds_order.append(str(r[0]))
+    R = _refit(per, slope, indep, order=ds_order)
+    if R["re"] is not None and not R["msgs"] and float(np.linalg.cond(psi)) > 1e4:
+        # same guard on the model's own fitted covariance: its optimiser run (float32 input) may have ended on the boundary
+        # (|correlation| = 1 - 1e-12 seen) although the float64 refit did not; neither the library's nor anybody's random effects
+        # are reproducible to 1e-5 through a covariance of condition number 1e13
+        R["msgs"] = ["near-singular-covariance(model fit):cond>1e4"]
     if R["re"] is not None and not R["msgs"] and float(np.linalg.cond(R["psi"])) > 1e4:
         # nearly singular random-effects covariance (|correlation| -> 1) without a library warning: the likelihood is flat along the
         # degenerate direction and two runs of the optimiser stop at visibly different points (seen: 2e-4 in log-likelihood, 1 % in Psi)
@@ -812,7 +825,7 @@ def body_lme(col: Collector, case):
             # parameter space the likelihood is flat and the optimiser's end point depends on the last digits of its input (observed
             # gaps up to 1e-3 in log-likelihood, 1 % in Psi, without any library warning). Second opinion: the library on the float32
             # numbers of the Dataset. Reproduced to the last digits -> optimiser end point, counted; otherwise the fit is not the library's.
-            R2 = _refit(per, slope, indep, float32_pipeline=True)
+            R2 = _refit(per, slope, indep, float32_pipeline=True, order=ds_order)
             reproduced = False
             if R2["re"] is not None:
                 d2 = max(float(np.abs(fe_m - R2["fe"]).max()) / max(float(np.abs(R2["fe"]).max()), 1e-12),
